@@ -114,6 +114,9 @@ func failingContext(p *Program, at ssa.Instruction, depth int) bool {
 	if deferredUnlessCommitted(p, fn, at) {
 		return true
 	}
+	if deferredTurnsIntoError(fn, at) {
+		return true
+	}
 	sites := callSitesOf(p, fn)
 	if len(sites) == 0 {
 		return false
@@ -1242,4 +1245,63 @@ func deferredUnlessCommitted(p *Program, fn *ssa.Function, at ssa.Instruction) b
 		})
 	}
 	return okAll && nStores > 0
+}
+
+// deferredTurnsIntoError: `at` is in a closure that only runs deferred, and right after it (same block) the
+// closure stores an error that is known to be non-nil there into the parent's error variable, which is the
+// (named) result every exit of the parent returns: the function reports an error whenever `at` ran
+// (`if uerr := release(); uerr != nil && err == nil { _ = os.Remove(path); err = uerr }`).
+func deferredTurnsIntoError(cl *ssa.Function, at ssa.Instruction) bool {
+	par := cl.Parent()
+	if par == nil || !deferredOnlyClosure(cl) {
+		return false
+	}
+	idx := errorResultIndex(par.Signature)
+	if idx < 0 {
+		return false
+	}
+	b := at.Block()
+	seenAt := false
+	for _, in := range b.Instrs {
+		if in == at {
+			seenAt = true
+			continue
+		}
+		if !seenAt {
+			continue
+		}
+		st, ok := in.(*ssa.Store)
+		if !ok {
+			continue
+		}
+		fv, ok := st.Addr.(*ssa.FreeVar)
+		if !ok || !isErrorType(derefType(fv.Type())) {
+			continue
+		}
+		cell := cellOf(fv)
+		if cell == nil || cell.Parent() != par || nilnessAt(st.Val, b) != nonNil {
+			continue
+		}
+		// no later store into the variable in the closure
+		later := false
+		eachInstr(cl, func(bb *ssa.BasicBlock, in2 ssa.Instruction) {
+			if s2, ok := in2.(*ssa.Store); ok && s2 != st && s2.Addr == ssa.Value(fv) && (bb != b && reachesBlock(b, bb)) {
+				later = true
+			}
+		})
+		if later {
+			continue
+		}
+		// every exit of the parent returns the variable
+		all := true
+		for _, ret := range returnsOf(par) {
+			if u, ok := ret.Results[idx].(*ssa.UnOp); !ok || u.Op != token.MUL || u.X != ssa.Value(cell) {
+				all = false
+			}
+		}
+		if all {
+			return true
+		}
+	}
+	return false
 }
